@@ -1050,7 +1050,9 @@ REF_FCN static REF_STATUS ref_interp_geom_nodes(REF_INTERP ref_interp) {
 
   nsend = 0;
   for (to_item = 0; to_item < total_node; to_item++)
-    if (ref_mpi_rank(ref_mpi) == from_proc[to_item]) nsend++;
+    if (ref_mpi_rank(ref_mpi) == from_proc[to_item] &&
+        REF_EMPTY != best_node[to_item])
+      nsend++;
 
   ref_malloc(send_bary, 4 * nsend, REF_DBL);
   ref_malloc(send_cell, nsend, REF_INT);
@@ -1060,8 +1062,8 @@ REF_FCN static REF_STATUS ref_interp_geom_nodes(REF_INTERP ref_interp) {
 
   nsend = 0;
   for (to_item = 0; to_item < total_node; to_item++)
-    if (ref_mpi_rank(ref_mpi) == from_proc[to_item]) {
-      RUS(REF_EMPTY, best_node[to_item], "no geom node");
+    if (ref_mpi_rank(ref_mpi) == from_proc[to_item] &&
+        REF_EMPTY != best_node[to_item]) {
       xyz = &(global_xyz[3 * to_item]);
       send_node[nsend] = global_node[to_item];
       send_proc[nsend] = source[to_item];
